@@ -17,13 +17,14 @@ ASSUMPTIONS = ["differences below 1e-12 are never generated, so the unspecified 
 FLOORS = {'quick': {'reflexive': 300, 'symmetric': 300, 'copy-equal': 300, 'rebuilt-equal': 300, 'differs': 250,
                     'ne-consistent': 600},
           'thorough': {'differs': 2500}}
-MANDATORY_TAGS = ['mut:coord', 'mut:weight', 'mut:knot', 'mut:degree', 'mut:size', 'mut:rational', 'mut:pdim', 'mut:none',
+MANDATORY_TAGS = ['mut:coord', 'mut:weight', 'mut:knot', 'mut:degree', 'mut:size', 'mut:rational', 'mut:pdim', 'mut:none', 'mut:hom_w',
                   'pdim1', 'pdim2', 'pdim3']
 TECHNIQUE = "runtime monitoring: metamorphic oracle on == / != of live shape objects over generated one-component mutations"
 LEVEL_TEXT = ("Each generated pair is compared in both directions with == and != and against the known difference between the "
               "two definitions; holds on the pairs observed.")
 
-MUTS = ['coord', 'weight', 'knot', 'degree', 'size', 'rational', 'pdim', 'none', 'none', 'coord', 'knot_unnorm', 'coord_last']
+MUTS = ['coord', 'weight', 'knot', 'degree', 'size', 'rational', 'pdim', 'none', 'none', 'coord', 'knot_unnorm', 'coord_last',
+        'hom_w', 'knot_dir0']
 
 
 def gen(rng, tier, shard, nshards):
@@ -31,7 +32,7 @@ def gen(rng, tier, shard, nshards):
     for i in range(n):
         pdim = rng.choice([1, 1, 2, 2, 3])
         mut = MUTS[i % len(MUTS)]
-        rational = True if mut == 'weight' else None
+        rational = True if mut in ('weight', 'hom_w') else None
         sd = G.rand_shape(rng, pdim, rational=rational, clamped_only=True, normalize=(mut != 'knot_unnorm'),
                           maxextra=4)
         yield {'kind': 'pair', 'sd': sd, 'mut': mut, 'seed': rng.randrange(1 << 30)}
@@ -49,8 +50,9 @@ def mutate(sd, mut, rng):
         i = rng.randrange(len(b['weights']))
         b['weights'][i] *= rng.choice([1.001, 2.0, 0.5])
         # keep the Cartesian point: homogeneous coordinates change with the weight
-    elif mut in ('knot', 'knot_unnorm'):
-        cands = [(d, i) for d, (kv, p) in enumerate(zip(b['kvs'], b['degrees'])) for i in range(p + 1, len(kv) - p - 1)]
+    elif mut in ('knot', 'knot_unnorm', 'knot_dir0'):
+        cands = [(d, i) for d, (kv, p) in enumerate(zip(b['kvs'], b['degrees'])) for i in range(p + 1, len(kv) - p - 1)
+                 if mut != 'knot_dir0' or d == 0]
         if not cands:
             raise Reject()
         d, i = rng.choice(cands)
@@ -104,8 +106,19 @@ def check(case, ctx):
     bsd = mutate(sd, mut, rng)
     a = G.build(sd)
     b = G.build(bsd)
+    if mut == 'hom_w':
+        # only the homogeneous weight coordinate of one control point differs (x*w, y*w, z*w stay put)
+        pw = [list(p) for p in b.ctrlptsw]
+        i = rng.randrange(len(pw))
+        pw[i][-1] = pw[i][-1] * rng.choice([1.001, 2.0, 0.5]) + rng.choice([0.0, 1e-3])
+        if sd['pdim'] == 1:
+            b.set_ctrlpts(pw)
+        else:
+            b.set_ctrlpts(pw, *sd['sizes'])
     ctx.nontriv(True)
-    ctx.tag('mut:' + {'knot_unnorm': 'knot', 'coord_last': 'coord'}.get(mut, mut), 'pdim%d' % sd['pdim'])
+    ctx.tag('mut:' + {'knot_unnorm': 'knot', 'knot_dir0': 'knot', 'coord_last': 'coord', 'hom_w': 'weight'}.get(mut, mut), 'pdim%d' % sd['pdim'])
+    if mut == 'hom_w':
+        ctx.tag('mut:hom_w')
     # reflexive, copy
     ctx.check((a == a) is True and (b == b) is True, 'reflexive', 'a == a is not True', what='reflexive')
     ac = copy.deepcopy(a)
@@ -122,7 +135,7 @@ def check(case, ctx):
     if mut == 'none':
         ctx.check(ab is True, 'equal-rejected', 'identical definitions compare unequal', what='rebuilt-equal')
     else:
-        ctx.check(ab is False and ba is False, 'differs/%s' % {'knot_unnorm': 'knot', 'coord_last': 'coord'}.get(mut, mut),
+        ctx.check(ab is False and ba is False, 'differs/%s' % {'knot_unnorm': 'knot', 'knot_dir0': 'knot', 'coord_last': 'coord', 'hom_w': 'weight'}.get(mut, mut),
                   'shapes differing in one %s compare equal' % mut, what='differs')
     # evaluation state must not influence equality
     a3 = G.build(sd)
